@@ -27,6 +27,34 @@ CHECKS = {
     text="Decides the data-independence clause for all contents and all n: no instruction whose execution or address depends on a byte of either region exists in the two functions, at the IR the compiler actually optimises (vectorised forms included in the thorough tier). The result clause (0 iff equal / sign of first difference) is value-level and is not decided.",
     design_ref="DESIGN.md §4 C19",
     note=TB + "; the x86 back end is trusted not to turn the remaining arithmetic into secret-dependent branches; only the data-independence clause is claimed"),
+ "C10": dict(
+    engine="derive",
+    technique="inter-procedural pointer-derivation and write-summary analysis: no store or writing callee effect reaches any operand of the 39 query functions",
+    category="other",
+    text="Decides, for all operand contents and sizes, the clause 'query functions never modify their operands': every pointer derived from an operand parameter (through casts, arithmetic, phi, libc/library functions that return interior pointers) is followed into every callee; any store or writing effect is a violation. Equality of the answers with strcmp/strstr/strspn/... is value-level and is not decided.",
+    design_ref="DESIGN.md §4 C10",
+    note=TB + "; only the operands-unmodified clause is claimed; out-of-bounds reads of these functions belong to C02"),
+ "C13": dict(
+    engine="formula",
+    technique="decision-table extraction: the six loop-free registration/invocation functions are interpreted over abstract handler values {NULL, symbols, default} and compared row by row with the reference model; storage-class and who-writes facts from the IR",
+    category="proof",
+    text="The functions touch handler values only by copies and null tests (enforced: anything else is 'not modelled'), so their behaviour is a finite decision table; all 162 rows equal the model (set returns the previous value of its own variable and stores arg-or-default; invoke calls exactly one handler: thread-local, else process-wide, else default, with unchanged arguments). With per-step equality the property over all histories and interleavings follows by induction; per-thread isolation is the thread_local storage class read from the IR.",
+    design_ref="DESIGN.md §3.4, §4 C13",
+    note=TB + "; platform TLS semantics; registration is not synchronised (a data race between a registering and a violating thread is outside the property as stated); inheritance by later-created threads is left open as in the property"),
+ "C16": dict(
+    engine="derive",
+    technique="SSA value-identity chain over the call graph of qsort_s.c/bsearch_s.c: every comparator call uses the function's own comparator/context parameters, forwarded unchanged from the exported entry",
+    category="other",
+    text="Decides the clause 'the caller's context (and key) reaches every comparison' for all arrays and comparators: it is a property of the shape of the 7 comparator call sites and the internal calls leading to them. Sortedness, permutation, search completeness and staying inside nmemb*size are not decided (non-linear Leonardo-heap arithmetic).",
+    design_ref="DESIGN.md §4 C16",
+    note=TB + "; only the context/key-forwarding clause is claimed"),
+ "C18": dict(
+    engine="derive",
+    technique="volatile/barrier must-follow path rule over the IR of the 7 erase entry points and their primitives; thorough: static inspection of LTO-compiled client machine code (gcc-12, clang-14, -O0..-O3)",
+    category="other",
+    text="Quick decides the mechanism C offers against dead-store elimination: every write into dest that can be followed by a success return is volatile, or barrier-followed on all paths, or done by a callee with that property. Thorough additionally compiles 448 client programs whose erased buffer is dead (stack / heap-then-free) together with the library's current sources and checks in the disassembly that the erase survived; nothing is executed.",
+    design_ref="DESIGN.md §4 C18",
+    note=TB + "; compilers honour volatile and asm/fence barriers; 'every optimisation level and every client' is a quantifier over compilers that the thorough tier samples with the two installed ones; the clause 'no more than the requested bytes are changed' is C01's"),
 }
 
 NOT_APPLICABLE = {
